@@ -132,6 +132,7 @@ def _normalise(merged):
     from . import localnames
     alpha_rename(merged)
     localnames.canon(merged)
+    merged['_known_q'] = localnames.known_functions()
     return merged
 
 
